@@ -148,7 +148,8 @@ func (r *Run) NViol() int { r.mu.Lock(); defer r.mu.Unlock(); return len(r.Viola
 func (r *Run) Finish() int {
 	wall := time.Since(r.start).Seconds()
 	// replay files
-	maxReplays := 20
+	maxReplays := 40
+	os.RemoveAll(filepath.Join(r.Root, "replays", r.Prop)) // witnesses of earlier runs are stale
 	for i := range r.Violations {
 		v := &r.Violations[i]
 		if i >= maxReplays {
